@@ -43,13 +43,20 @@ import (
 //   normal mass >= c - 1e-13; every accepted band (trimmed ones included)
 //   must carry mass >= c - 1e-13;
 //   Confidence = normal mass of the accepted unclamped band, or 1 when that
-//   band covers [0,n+1], +-1e-9;  Confidence >= c - 1e-13.
+//   band covers [0,n+1], +-1e-9, and 1-Confidence = the mass outside the band
+//   (0 when it covers everything) to 1e-6 relative + 1e-15;
+//   Confidence >= c - 1e-13.
+// Every judged QuantileCI call is repeated at once and once more after an
+// unrelated QuantileCI call: the three answers must be bit-identical
+// (QuantileCI is a function of its arguments) and each is judged.
 // SampleCI, for every distinct (Lo,Hi) a case produces, on an unsorted
 // presentation (Sorted=false) and on the sorted data with Sorted=true:
 //   q == Sample.Quantile(q) of the same data, lo == x_(Lo) or -Inf for order
 //   0, hi == x_(Hi) or +Inf for order n+1; M-guard with canaries around Xs.
 //   The buffers are refilled in place with other data between rounds (a
-//   result must describe the present contents, not an earlier call's).
+//   result must describe the present contents, not an earlier call's), and
+//   other Sample methods run on unrelated samples between the rounds (SampleCI
+//   must not depend on what the rest of the package was used for).
 
 type c11Case struct {
 	N  int     `json:"n"`
@@ -62,6 +69,71 @@ type c11Case struct {
 	// of single events carry the explicit level and Expand=false.
 	Expand bool   `json:"expand,omitempty"`
 	Samp   uint64 `json:"sample_seed"`
+	// Other, when set (replays), is the unrelated QuantileCI call made
+	// between the second and the third time a question is asked; otherwise
+	// it is drawn from Samp.
+	Other *c11Other `json:"other,omitempty"`
+	// Rounds, when set (replays of SampleCI violations), is the number of
+	// SampleCI rounds to run at least: the last pair of orders is applied
+	// again until the round of the recorded violation (same contents, same
+	// preceding operations on unrelated samples) has been reached.
+	Rounds int `json:"sample_rounds,omitempty"`
+}
+
+type c11Other struct {
+	N int   `json:"n"`
+	Q mon.F `json:"q"`
+	C mon.F `json:"c"`
+}
+
+// c11Unrelated draws a QuantileCI question different from (n, q, c): another
+// level of the same (n, q), another n (of the other regime too), another q, or
+// a fixed small one.
+func c11Unrelated(rng *mon.Rand, n int, q, c float64, levels []float64, li int) c11Other {
+	o := c11Other{N: n, Q: mon.F(q), C: mon.F(c)}
+	switch rng.Intn(6) {
+	case 0: // the level judged next (that call then is itself a repetition)
+		if k := (li + 1) % len(levels); levels[k] != c {
+			o.C = mon.F(levels[k])
+			return o
+		}
+		o.C = mon.F(c / 2)
+	case 1:
+		o.N = n + 1
+	case 2:
+		if n > 1 {
+			o.N = n - 1
+		} else {
+			o.N = 31
+		}
+	case 3: // the other regime
+		if n <= c11Threshold {
+			o.N = n + 31
+		} else {
+			o.N = 1 + n%30
+		}
+	case 4:
+		if q < 0.5 {
+			o.Q = mon.F(q + 0.25)
+		} else {
+			o.Q = mon.F(q - 0.25)
+		}
+	default:
+		o = c11Other{N: 7, Q: 0.5, C: 0.9}
+		if n == 7 && q == 0.5 && c == 0.9 {
+			o.N = 8
+		}
+	}
+	return o
+}
+
+func c11SameRes(a, b stats.QuantileCIResult) bool {
+	return a.N == b.N && a.LoOrder == b.LoOrder && a.HiOrder == b.HiOrder && a.Ambiguous == b.Ambiguous &&
+		math.Float64bits(a.Quantile) == math.Float64bits(b.Quantile) && math.Float64bits(a.Confidence) == math.Float64bits(b.Confidence)
+}
+
+func c11ResString(r stats.QuantileCIResult) string {
+	return fmt.Sprintf("{N=%d Quantile=%v orders [%d,%d] Confidence %.17g Ambiguous=%v}", r.N, r.Quantile, r.LoOrder, r.HiOrder, r.Confidence, r.Ambiguous)
 }
 
 func init() {
@@ -82,6 +154,16 @@ const (
 	// Confidence may fall short of c by rounding only (two erfc values and
 	// a subtraction: the unchanged library's worst is 2e-16)
 	c11NormalSlack = 1e-13
+	// Confidence is the normal mass of the band, so 1-Confidence is the mass
+	// outside it. Relative part: the two outer erfc values at arguments up to
+	// t ~ 26.5 (beyond, erfc underflows) react to a relative change d of t
+	// with 2 t^2 d <= 1400 d, and d is a few ulp of mu/(mu-x) <= a few
+	// 1e-16 sqrt(n/(1-q)) (n <= 2001 here): below 1e-8 for every input the
+	// monitor generates. Absolute part: Confidence computed as a difference
+	// of two values next to 1 carries two roundings of 1.1e-16 each (the
+	// unchanged library's worst over the workload: 1.2e-16, see the evidence).
+	c11TailRel = 1e-6
+	c11TailAbs = 1e-15
 )
 
 // c11ExactSlack is what rounding can explain when a sum of up to n+1 binomial
@@ -141,7 +223,10 @@ func c11Judge(w *mon.W, cs c11Case) {
 	if n < 1 || !(q >= 0 && q <= 1) {
 		return
 	}
-	sub := func(c ...float64) c11Case { return c11Case{N: n, Q: cs.Q, Cs: mon.Fs(c), Samp: cs.Samp} }
+	var subOther *c11Other
+	sub := func(c ...float64) c11Case {
+		return c11Case{N: n, Q: cs.Q, Cs: mon.Fs(c), Samp: cs.Samp, Other: subOther}
+	}
 
 	var levels []float64
 	add := func(c float64) {
@@ -280,18 +365,49 @@ func c11Judge(w *mon.W, cs c11Case) {
 		}
 	}
 	results := make([]c11Res, 0, len(levels))
-	for _, c := range levels {
+	judge := func(c float64, res stats.QuantileCIResult) bool {
+		if exact {
+			return c11JudgeExact(w, bin, c, res, sub, distinct)
+		}
+		return c11JudgeNormal(w, nrm, c, res, sub, distinct)
+	}
+	// QuantileCI is a function of its arguments: every judged question is
+	// asked again at once, and a third time after an unrelated question. An
+	// answer with the same bits as the first one has been judged with it (the
+	// oracles depend on (n,q,c) and the answer only); a different answer is
+	// a violation of its own and is judged with the same oracles.
+	urng := mon.NewRand(cs.Samp, 0xca11)
+	w.HitIf(len(levels) > 0, "asked-again-at-once")
+	w.HitIf(len(levels) > 0, "asked-again-after-an-unrelated-call")
+	for li, c := range levels {
 		res, ok := c11Call(w, "QuantileCI", n, q, c, sub)
 		if !ok {
 			continue
 		}
-		var good bool
-		if exact {
-			good = c11JudgeExact(w, bin, c, res, sub, distinct)
-		} else {
-			good = c11JudgeNormal(w, nrm, c, res, sub, distinct)
-		}
+		good := judge(c, res)
 		results = append(results, c11Res{c, res, good})
+
+		again := func(op string) {
+			res2, ok := c11Call(w, op, n, q, c, sub)
+			if !ok || c11SameRes(res, res2) {
+				return
+			}
+			when := "the same call repeated at once returned"
+			if subOther != nil {
+				when = fmt.Sprintf("after QuantileCI(%d, %v, %v) the same call returned", subOther.N, float64(subOther.Q), float64(subOther.C))
+			}
+			w.Violate("not-a-function", fmt.Sprintf("QuantileCI(%d, %v, %v) returned %s, and %s %s", n, q, c, c11ResString(res), when, c11ResString(res2)), sub(c))
+			judge(c, res2)
+		}
+		again("QuantileCI(asked again at once)")
+		o := c11Unrelated(urng, n, q, c, levels, li)
+		if cs.Other != nil {
+			o = *cs.Other
+		}
+		mon.Call(func() { stats.QuantileCI(o.N, float64(o.Q), float64(o.C)) }) // not judged here
+		subOther = &o
+		again("QuantileCI(asked again after an unrelated call)")
+		subOther = nil
 	}
 
 	// nesting (statement: n <= 30)
@@ -494,6 +610,11 @@ func c11JudgeNormal(w *mon.W, m ref.C11Norm, c float64, res stats.QuantileCIResu
 		full := l0 <= 0 && r0 >= n+1
 		hit(full, "full-range(n>30,c<1)")
 		hit(full && m.Mass(l0, r0) < 1-2*c11NormalTol, "full-range-mass<1-2e-9")
+		// nearly all of the mass inside a band that does not cover
+		// everything: Confidence is next to 1, not 1
+		if tl := m.Tail(l0, r0); !full {
+			hit(tl < 1e-9 && tl > 1e-13, "outside-mass-1e-13..1e-9(n>30)")
+		}
 		hit(m.TwoMuInt && m.Sigma > 0, "symmetric-band(n>30)")
 		hit(!m.TwoMuInt, "asymmetric-band(n>30)")
 		hit(c < 1e-17, "c<1e-17")
@@ -531,6 +652,7 @@ func c11JudgeNormal(w *mon.W, m ref.C11Norm, c float64, res stats.QuantileCIResu
 	// neighbour inside the window and a trimmed band are acceptable.
 	ordersOK, confOK, matched := false, false, false
 	bestDiff, bestWant := math.Inf(1), math.NaN()
+	bestScore, bestTailDiff, bestTailTol, bestTail := math.Inf(1), math.Inf(1), 1.0, math.NaN()
 	short, shortWant := math.Inf(1), math.NaN()
 	for _, k := range cands {
 		if k.r <= k.l || c11Clamp(k.l, n) != lo || c11Clamp(k.r, n) != hi {
@@ -552,10 +674,22 @@ func c11JudgeNormal(w *mon.W, m ref.C11Norm, c float64, res stats.QuantileCIResu
 		if math.IsNaN(d) {
 			d = math.Inf(1)
 		}
-		if d < bestDiff || math.IsNaN(bestWant) {
-			bestDiff, bestWant = d, want
+		// the mass left outside the band, judged relatively: 1-Confidence
+		// against the sum of the two outer erfc values
+		wantTail := m.Tail(k.l, k.r)
+		if want == 1 {
+			wantTail = 0 // covers everything (or all of a point mass): exactly 1
 		}
-		if d <= c11NormalTol {
+		tailTol := c11TailRel*wantTail + c11TailAbs
+		dt := math.Abs((1 - res.Confidence) - wantTail)
+		if math.IsNaN(dt) {
+			dt = math.Inf(1)
+		}
+		if score := math.Max(d/c11NormalTol, dt/tailTol); score < bestScore || math.IsNaN(bestWant) {
+			bestScore, bestDiff, bestWant = score, d, want
+			bestTailDiff, bestTailTol, bestTail = dt, tailTol, wantTail
+		}
+		if d <= c11NormalTol && dt <= tailTol {
 			confOK = true
 		}
 	}
@@ -576,8 +710,13 @@ func c11JudgeNormal(w *mon.W, m ref.C11Norm, c float64, res stats.QuantileCIResu
 		if math.IsInf(bestDiff, 1) {
 			bestDiff = math.NaN()
 		}
-		if !w.Err("normal-mass(n>30)", bestDiff, c11NormalTol) || !confOK {
-			w.Violate("confidence-mass", fmt.Sprintf("%s returned [%d,%d] Ambiguous=%v Confidence %.17g, but the normal mass of that band before clamping (1 when it covers everything) is %.17g", name, lo, hi, res.Ambiguous, res.Confidence, bestWant), sub(c))
+		if math.IsInf(bestTailDiff, 1) {
+			bestTailDiff = math.NaN()
+		}
+		okMass := w.Err("normal-mass(n>30)", bestDiff, c11NormalTol)
+		okTail := w.Err("normal-mass-outside-the-band(n>30)", bestTailDiff, bestTailTol)
+		if !okMass || !okTail || !confOK {
+			w.Violate("confidence-mass", fmt.Sprintf("%s returned [%d,%d] Ambiguous=%v Confidence %.17g, but the normal mass of that band before clamping (1 when it covers everything) is %.17g: 1-Confidence = %.6g, the mass outside the band is %.6g (tolerance %.3g)", name, lo, hi, res.Ambiguous, res.Confidence, bestWant, 1-res.Confidence, bestTail, bestTailTol), sub(c))
 		}
 	}
 	if def := c - res.Confidence; !w.Err("confidence>=c(n>30)", math.Max(0, def), c11NormalSlack) {
@@ -622,6 +761,80 @@ func c11Refill(g *c10Guarded, vals []float64) {
 	}
 }
 
+// What c11Disturb did last.
+const (
+	c11WeightedUnsorted = iota + 1
+	c11PlainUnsorted
+	c11SortCopy
+)
+
+// c11Disturb uses the rest of the Sample API on unrelated samples of other
+// lengths, in a random order, the way a program does between two SampleCI
+// calls: Quantile and IQR of weighted and unweighted unsorted samples, Sort on
+// copies, Copy. Nothing here is judged (Quantile, IQR, Sort and Copy are other
+// properties' business) and panics are ignored: the point is that SampleCI on
+// the case's own sample, judged right after, must not depend on any of it. It
+// reports the kind of the last operation.
+func c11Disturb(rng *mon.Rand, n int) (last int) {
+	mk := func() (xs, ws []float64) {
+		m := rng.Range(2, 16)
+		if n <= 40 { // (cost: not for the long samples)
+			switch rng.Intn(8) {
+			case 0:
+				m = n + rng.Range(1, 5)
+			case 1:
+				m = max(1, n-rng.Range(1, 5))
+			}
+		}
+		if m == n {
+			m++
+		}
+		xs, ws = make([]float64, m), make([]float64, m)
+		for i := range xs {
+			xs[i] = 1e3 + rng.Float64() // away from the values of the judged samples
+			ws[i] = 0.5 + rng.Float64()
+		}
+		if m > 1 && sort.Float64sAreSorted(xs) {
+			xs[0], xs[m-1] = xs[m-1], xs[0]
+		}
+		return
+	}
+	ops := rng.Perm(8)
+	for _, op := range ops[:rng.Range(1, 3)] {
+		xs, ws := mk()
+		qq := rng.Uniform(0.05, 0.95)
+		mon.Call(func() {
+			switch op {
+			case 0:
+				stats.Sample{Xs: xs, Weights: ws}.Quantile(qq)
+			case 1:
+				stats.Sample{Xs: xs, Weights: ws}.IQR()
+			case 2:
+				stats.Sample{Xs: xs}.Quantile(qq)
+			case 3:
+				stats.Sample{Xs: xs}.IQR()
+			case 4:
+				(&stats.Sample{Xs: xs, Weights: ws}).Sort()
+			case 5:
+				(&stats.Sample{Xs: xs}).Sort()
+			case 6:
+				stats.Sample{Xs: xs, Weights: ws}.Copy().Sort().Quantile(qq)
+			default:
+				stats.Sample{Xs: xs}.Copy().Sort().IQR()
+			}
+		})
+		switch { // the kind counts even if the call panicked
+		case op <= 1:
+			last = c11WeightedUnsorted
+		case op <= 3:
+			last = c11PlainUnsorted
+		default:
+			last = c11SortCopy
+		}
+	}
+	return last
+}
+
 // c11JudgeSample maps every distinct pair of orders of the case onto a
 // sample of size n. The two presentations (unsorted with Sorted=false, sorted
 // with Sorted=true) keep their backing arrays for the whole case, but their
@@ -636,6 +849,14 @@ func c11JudgeSample(w *mon.W, cs c11Case, results []c11Res, sub func(...float64)
 	var sets [2]*c11Data
 	var pres [2]*c10Guarded
 	rounds, differ := 0, false
+	sub0 := sub
+	sub = func(c ...float64) c11Case {
+		cc := sub0(c...)
+		cc.Rounds = rounds
+		return cc
+	}
+	prng := mon.NewRand(cs.Samp, 0xd157)
+	var last c11Res
 	round := func(r c11Res) {
 		k := rounds % 2
 		rounds++
@@ -660,6 +881,11 @@ func c11JudgeSample(w *mon.W, cs c11Case, results []c11Res, sub func(...float64)
 		}
 		w.HitIf(!sort.Float64sAreSorted(d.xs), "sample-unsorted")
 		lo, hi := r.res.LoOrder, r.res.HiOrder
+		if last := c11Disturb(prng, n); !sort.Float64sAreSorted(d.xs) {
+			w.HitIf(last == c11WeightedUnsorted, "SampleCI-after-weighted-unsorted-Quantile|IQR-elsewhere")
+			w.HitIf(last == c11PlainUnsorted, "SampleCI-after-unweighted-unsorted-Quantile|IQR-elsewhere")
+			w.HitIf(last == c11SortCopy, "SampleCI-after-Sort|Copy-elsewhere")
+		}
 		wantLo, wantHi := math.Inf(-1), math.Inf(1)
 		if lo >= 1 {
 			wantLo = d.sorted[lo-1]
@@ -711,6 +937,10 @@ func c11JudgeSample(w *mon.W, cs c11Case, results []c11Res, sub func(...float64)
 		if first {
 			round(r) // the same orders on the other contents, same buffers
 		}
+		last = r
+	}
+	for last.ok && rounds < cs.Rounds && rounds < 1<<16 {
+		round(last)
 	}
 }
 
@@ -791,11 +1021,11 @@ func c11RandCs(rng *mon.Rand, k int) []float64 {
 }
 
 func c11Run(r *mon.Run) {
-	r.Rule("exact regime: every n=1..30 x q in {j/40, 1e-9, 1-1e-9} x c in {j/200 (exact regime, thorough: j/2000), 0.999..1-1e-12, 1e-3..1e-300, 5e-324, 1-1e-16, 1, nextafter(1), 2, +Inf} plus, per (n,q), every cumulative mass of the reference's greedy path and every Confidence reported along the library's own path, each with both nextafter neighbours, fed back as c, and every cumulative mass of the reference path plus twice the rounding slack and times 1+-LogUniform(1e-16,1e-9). normal regime: n in {31..36, 50, 100, 101, 1000, 2000} (thorough: every n=31..130 and 200,500,999,1500) on the same q and c, plus per (n,q) levels that put an end of the central normal interval on / 1e-6 beside bucket boundaries at both clamps, near mu and at random, the levels where the band just covers [0,n+1], and the reported Confidences +-1ulp fed back, plus levels that put the end +-5e-11 and +-LogUniform(1e-12,1e-9) from each of those boundaries. random: n, q from hostile families ((n+1)q or nq-1/2 beside an integer, dyadic, grid+-1ulp, within 1e-9..0.1 of 0 and 1, 1/2+-LogUniform(1e-14,1e-6), the q at which two buckets at most 6 apart carry equal mass +-LogUniform(1e-14,1e-6), uniform) x 40 random c, expanded the same way. SampleCI on every distinct pair of orders of every case (unsorted with Sorted=false, sorted with Sorted=true; 5 sample families); the two guarded buffers of a case are overwritten in place with another data set between consecutive SampleCI rounds (the first pair of orders is applied to both sets) and every call is judged against a fresh sort of the present contents. Non-trivial = hits a reference-side class; distinct by hash of (n,q,c) in the grid classes and of (n,q,levels) in the random classes; c at a cumulative mass (+-1ulp) and normal end points within 1e-9 of a bucket boundary are counted as ambiguous.")
+	r.Rule("exact regime: every n=1..30 x q in {j/40, 1e-9, 1-1e-9} x c in {j/200 (exact regime, thorough: j/2000), 0.999..1-1e-12, 1e-3..1e-300, 5e-324, 1-1e-16, 1, nextafter(1), 2, +Inf} plus, per (n,q), every cumulative mass of the reference's greedy path and every Confidence reported along the library's own path, each with both nextafter neighbours, fed back as c, and every cumulative mass of the reference path plus twice the rounding slack and times 1+-LogUniform(1e-16,1e-9). normal regime: n in {31..36, 50, 100, 101, 1000, 2000} (thorough: every n=31..130 and 200,500,999,1500) on the same q and c, plus per (n,q) levels that put an end of the central normal interval on / 1e-6 beside bucket boundaries at both clamps, near mu and at random, the levels where the band just covers [0,n+1], and the reported Confidences +-1ulp fed back, plus levels that put the end +-5e-11 and +-LogUniform(1e-12,1e-9) from each of those boundaries. random: n, q from hostile families ((n+1)q or nq-1/2 beside an integer, dyadic, grid+-1ulp, within 1e-9..0.1 of 0 and 1, 1/2+-LogUniform(1e-14,1e-6), the q at which two buckets at most 6 apart carry equal mass +-LogUniform(1e-14,1e-6), uniform) x 40 random c, expanded the same way. SampleCI on every distinct pair of orders of every case (unsorted with Sorted=false, sorted with Sorted=true; 5 sample families); the two guarded buffers of a case are overwritten in place with another data set between consecutive SampleCI rounds (the first pair of orders is applied to both sets) and every call is judged against a fresh sort of the present contents; before every SampleCI round 1..3 other Sample operations, in random order, run on unrelated samples of other lengths (2..16, for n<=40 also n+-1..5): Quantile and IQR of weighted and of unweighted unsorted samples, Sort of weighted and unweighted samples, Copy+Sort+Quantile/IQR (results discarded, panics there ignored). Every judged QuantileCI(n,q,c) is asked three times: again at once, and once more after one unrelated QuantileCI call (another level of the case, n+-1, an n of the other regime, q+-1/4, or (7,0.5,0.9)); the three answers must have the same bits, and a differing answer is judged with all the oracles as well. Non-trivial = hits a reference-side class; distinct by hash of (n,q,c) in the grid classes and of (n,q,levels) in the random classes; c at a cumulative mass (+-1ulp) and normal end points within 1e-9 of a bucket boundary are counted as ambiguous.")
 	r.Assume("domain: n>=1, 0<=q<=1, c>0 (c<=0 and NaN are not confidence levels and are never generated); samples finite, unweighted, of size n",
 		"exact regime: q is taken as the exact rational value of the float64; tolerance 1e-12 on masses (31 products of a few ulp each); 'at least c' is judged on the exact mass of the returned buckets and on the reported Confidence with the rounding-scale slack 64(n+2)2^-52 max(c, mass) (at least 8x the worst deficit of a float64 accumulation of the masses); a bucket within 1e-12 of the largest mass counts as a mode",
 		"'at least one end bucket is needed' is judged as stated (not both removable: mass - max(end masses) < c + 1e-12), not as the stronger 'the smaller end is needed'",
-		"normal regime: mu, sigma correctly rounded from exact nq, nq(1-q); inverse of Phi by bisection on math.Erfc, checked at start-up against the 384-bit Newton inversion; window 1e-9 around bucket boundaries, inside which the outward neighbour is always accepted and the inward one only if its band still carries normal mass >= c-1e-13; Confidence +-1e-9 of the band's mass; band mass and Confidence >= c-1e-13 (rounding of two erfc values)",
+		"normal regime: mu, sigma correctly rounded from exact nq, nq(1-q); inverse of Phi by bisection on math.Erfc, checked at start-up against the 384-bit Newton inversion; window 1e-9 around bucket boundaries, inside which the outward neighbour is always accepted and the inward one only if its band still carries normal mass >= c-1e-13; Confidence +-1e-9 of the band's mass and 1-Confidence within 1e-6 relative + 1e-15 of the mass outside the band (sum of the two outer erfc values; 0 when the band covers everything, so that exactly 1 is accepted only there or when the outside mass is below 1e-15: two erfc values at |t|<=26.5 differ by at most 1400 times the relative difference of their arguments, below 1e-8 for n<=2001, and a difference of two values next to 1 carries two roundings of 1.1e-16); band mass and Confidence >= c-1e-13 (rounding of two erfc values)",
 		"for n>30 the Ambiguous flag is only required where the upper order is one below the outward rounding; nesting is asserted for n<=30 only (as stated)")
 	r.Gate("n<=30", "n>30", "q=0|1", "c>=1", "c<1e-17", "c-at-cumulative-mass(+-1ulp)", "c==cumulative-mass",
 		"ref-shift-equal(n<=30)", "ref-shift-unequal(n<=30)", "exact-tie-modes", "near-tie-modes",
@@ -803,7 +1033,9 @@ func c11Run(r *mon.Run) {
 		"ref-clamped-at-0", "ref-clamped-at-n+1", "ref-order-0", "ref-order-n+1",
 		"full-range(n>30,c<1)", "full-range-mass<1-2e-9", "window(n>30)", "point-band-on-bucket-boundary(n>30)",
 		"sample-unsorted",
-		"ref-shift-nearly-equal(n<=30)", "c-just-above-cumulative-mass(n<=30)", "end-just-outside-boundary(n>30)", "sample-refilled-in-place")
+		"ref-shift-nearly-equal(n<=30)", "c-just-above-cumulative-mass(n<=30)", "end-just-outside-boundary(n>30)", "sample-refilled-in-place",
+		"asked-again-at-once", "asked-again-after-an-unrelated-call", "outside-mass-1e-13..1e-9(n>30)",
+		"SampleCI-after-weighted-unsorted-Quantile|IQR-elsewhere", "SampleCI-after-unweighted-unsorted-Quantile|IQR-elsewhere", "SampleCI-after-Sort|Copy-elsewhere")
 	if err := ref.C11SelfTest(); err != nil {
 		r.Inconclusive("reference self-test failed: " + err.Error())
 		return
